@@ -152,6 +152,34 @@ with csamples_in (c : chain) (n : nat) : nat :=
   end.
 Definition min_samples (s : stage) : nat := samples_in s 1.
 
+(* ---------- well-formedness of a stage tree for given input dims: what fit
+   itself checks or silently relies on (boolean, evaluated on every generated case) *)
+Definition poly_wf (powers : list (list nat)) (d : dims) : bool :=
+  let n := fst d + snd d in
+  forallb (fun p => Nat.eqb (length p) n) powers
+  && forallb (fun i => Nat.eqb (length (find_all (row_eqb (unit_row n i)) powers)) 1) (seq 0 n).
+Definition leaf_wf (l : leaf) (d : dims) : bool :=
+  match l with
+  | LPoly p => poly_wf p d
+  | LRbf _ cs => forallb (fun c => Nat.eqb (length c) (fst d + snd d)) cs
+  | LAngle feats _ => forallb (fun k => Nat.ltb k (fst d + snd d)) feats
+  | _ => true
+  end.
+Fixpoint wf (s : stage) (d : dims) : bool :=
+  match s with
+  | Leaf l => leaf_wf l d
+  | Split xs us =>
+      cwf xs (fst d, 0) && cwf us (0, snd d)
+      && Nat.eqb (snd (cdims xs (fst d, 0))) 0        (* else fit raises RuntimeError *)
+      && Nat.eqb (fst (cdims us (0, snd d))) 0
+  | Pipe c => cwf c d
+  end
+with cwf (c : chain) (d : dims) : bool :=
+  match c with
+  | CNil => true
+  | CCons s c' => wf s d && cwf c' (sdims s d)
+  end.
+
 (* ---------- row-level transforms of the episode-independent kinds *)
 Definition bilinear_row (ns : nat) (r : list T) : list T :=
   let xs := firstn ns r in let us := skipn ns r in
